@@ -192,6 +192,22 @@ where
         if ComplexField::is_finite(&y) != ComplexField::is_finite(&yf) || RealField::is_sign_positive(&y) != RealField::is_sign_positive(&yf) || RealField::is_sign_negative(&y) != RealField::is_sign_negative(&yf) {
             acc.violate(format!("predicates:{}", tname), format!("is_finite / is_sign_* on {} at {:e} differ from the float's", tname, yr), case());
         }
+        // the same predicates when derivative parts are infinite or NaN: still the real part's answer
+        {
+            let mut sn = sy.clone();
+            for (k, v) in sn.iter_mut().enumerate().skip(1) {
+                *v = match (k + ci as usize) % 3 {
+                    0 => f64::INFINITY,
+                    1 => f64::NAN,
+                    _ => f64::NEG_INFINITY,
+                };
+            }
+            let yn: T = build_all(&shape, &sn);
+            acc.observe(&format!("predicates[non-finite derivative parts]|{}", tname), true);
+            if ComplexField::is_finite(&yn) != ComplexField::is_finite(&yf) || RealField::is_sign_positive(&yn) != RealField::is_sign_positive(&yf) || RealField::is_sign_negative(&yn) != RealField::is_sign_negative(&yf) {
+                acc.violate(format!("predicates-nonfinite-parts:{}", tname), format!("is_finite / is_sign_* on {} at {:e} with infinite / NaN derivative parts differ from the float's ({}, {}, {})", tname, yr, ComplexField::is_finite(&yn), RealField::is_sign_positive(&yn), RealField::is_sign_negative(&yn)), case());
+            }
+        }
         // model check of the composite methods (hypot, log with dual base, powf with dual exponent)
         {
             let (tx, ty) = (Tr::exact(Jet::from_slots(&b, &sx), &b), Tr::exact(Jet::from_slots(&b, &sy), &b));
